@@ -464,6 +464,9 @@ pub struct FullQueueCase {
 	pub string_sub_id: bool,
 	pub id_kind: IdK,
 	pub cap: u8,
+	/// the application calls `unsubscribe()` instead of dropping the stream
+	#[serde(default)]
+	pub explicit: bool,
 }
 
 pub struct DroppedWithFullQueue;
@@ -505,7 +508,13 @@ pub async fn full_queue_scenario(case: &FullQueueCase, fails: &mut Vec<(String, 
 	let tb = tokio::spawn(async move { cb.request::<Value, _>("call_b", rpc_params![]).await.is_ok() });
 	settle().await;
 	// the application lets go of the stream now: the notice to the background task does not fit into the queue
-	drop(stream);
+	let mut unsub_task = None;
+	if case.explicit {
+		// an explicit unsubscribe waits for room in the queue instead
+		unsub_task = Some(tokio::spawn(async move { stream.unsubscribe().await.is_ok() }));
+	} else {
+		drop(stream);
+	}
 	settle().await;
 	mc.shared.gates.open("g");
 	settle().await;
@@ -519,6 +528,9 @@ pub async fn full_queue_scenario(case: &FullQueueCase, fails: &mut Vec<(String, 
 	let _ = (ta.now_or_never(), tb.now_or_never());
 	let count = |mc: &MockClient| mc.wire_all().iter().filter(|m| m["method"] == json!("unsub") && m["params"] == json!([sid])).count();
 	let lost = count(&mc) == 0;
+	if case.explicit && count(&mc) != 1 {
+		fails.push(("c05/explicit-unsubscribe-request-count".into(), format!("{} unsubscribe requests on the wire after the request queue drained (explicit unsubscribe() issued while the queue was full)", count(&mc))));
+	}
 	// "... exactly one whenever ... a further notification for it arrives"
 	let n = case.pushes_after.max(1) as u64;
 	if case.packed && n >= 2 {
@@ -537,6 +549,12 @@ pub async fn full_queue_scenario(case: &FullQueueCase, fails: &mut Vec<(String, 
 		mc.push_text(json!({"jsonrpc":"2.0","id":uid,"result":true}).to_string());
 	}
 	settle().await;
+	if let Some(t) = unsub_task {
+		match t.now_or_never() {
+			Some(Ok(true)) => {}
+			other => fails.push(("c05/explicit-unsubscribe-never-completes".into(), format!("unsubscribe() future: {other:?} after the request was acknowledged"))),
+		}
+	}
 	#[cfg(feature = "hooks")]
 	let sizes = Some(mc.client.verif_table_sizes());
 	#[cfg(not(feature = "hooks"))]
@@ -556,8 +574,8 @@ impl SubCheck for DroppedWithFullQueue {
 		tier.pick(3_000, 60_000)
 	}
 	fn strategy(&self, _tier: Tier) -> BoxedStrategy<FullQueueCase> {
-		(0u8..3, 1u8..4, any::<bool>(), any::<bool>(), prop_oneof![Just(IdK::Number), Just(IdK::String)], 1u8..4)
-			.prop_map(|(before, pushes_after, packed, string_sub_id, id_kind, cap)| FullQueueCase { before, pushes_after, packed, string_sub_id, id_kind, cap })
+		(0u8..3, 1u8..4, any::<bool>(), any::<bool>(), prop_oneof![Just(IdK::Number), Just(IdK::String)], 1u8..4, proptest::bool::weighted(0.35))
+			.prop_map(|(before, pushes_after, packed, string_sub_id, id_kind, cap, explicit)| FullQueueCase { before, pushes_after, packed, string_sub_id, id_kind, cap, explicit })
 			.boxed()
 	}
 	fn run(&self, case: &FullQueueCase, obs: &mut Obs) {
@@ -565,7 +583,10 @@ impl SubCheck for DroppedWithFullQueue {
 		rt.block_on(async {
 			let mut fails = vec![];
 			let (n, _sizes, lost) = full_queue_scenario(case, &mut fails).await;
-			if lost {
+			if case.explicit {
+				obs.nontrivial();
+				obs.class("explicit-unsubscribe-with-full-queue");
+			} else if lost {
 				obs.nontrivial();
 				obs.class("drop-notice-lost-queue-full");
 			} else {
